@@ -34,7 +34,10 @@
      makes the stage fail (C03_missing_price_fails).
    Input side conditions of the end-to-end theorems (posting_in_ok): posting accounts are
    syntactically valid (account_ok: what the parser accepts) and a booking of quantity zero enters
-   the stage with value zero (the builder creates every posting with the zero Value).
+   the stage with value zero (the builder creates every posting with the zero Value: proved,
+   C03_built_days_in_ok; C03_mark_to_market_balance_prefix is the statement for the days that
+   leave the valuate stage of the balance command's pipeline, with the validity of the posting
+   accounts as the only side condition).
 
    PARTIAL (C03_windowed_partial): DESIGN.md section 7 states the window on the report,
 
@@ -53,6 +56,7 @@ From Coq Require Import ZArith QArith Qabs List Bool.
 From Knut Require Import Model.Str Model.Dec Model.Account Model.Ledger Model.Price Model.Journal Model.Check Model.Pipeline
      Spec.WellformedSpec Spec.MarkToMarketSpec Spec.PriceDaySpec
      Proofs.DecProofs Proofs.DecValue Proofs.PairProofs Proofs.ValuationProofs Proofs.MarkToMarket.
+From Knut Require Model.Cli.
 Import ListNotations.
 
 (* booking values plus revaluations telescope to (last price) * (total quantity) *)
@@ -141,6 +145,32 @@ Theorem C03_mark_to_market : forall v a c ds0 s1 ds1 s2 ds2,
     <= inject_Z (cell_count a c (days_postings ds2)) * (1 # 100000000).
 Proof. exact mark_to_market_pipeline. Qed.
 Print Assumptions C03_mark_to_market.
+
+(* the prefix of the balance command (Model/Cli.v balance_report: load, touch for --close, check,
+   prices, valuate): the value-zero side condition is discharged by the builder; what remains is
+   the syntactic validity of the posting accounts *)
+Theorem C03_mark_to_market_balance_prefix : forall l dl dates touch repaired v a c s0 days0 s1 ds1 s2 ds2,
+  parse_directives l = MOk dl ->
+  let days := b_days (if touch : bool then builder_touch (builder_of dl) dates else builder_of dl) in
+  Forall (fun p => account_ok (p_acc p) = true) (days_postings days) ->
+  account_ok a = true -> is_AL a = true -> c <> v -> days <> [] ->
+  process_days (Cli.check_proc_current repaired) check_init days = ROk (s0, days0) ->
+  process_days (compute_prices_proc v) (mkCp [] None) days0 = ROk (s1, ds1) ->
+  process_days (valuate_proc v) (mkVal None None []) ds1 = ROk (s2, ds2) ->
+  Qabs (cell_value a c (days_postings ds2)
+        - cell_qty a c (days_postings days) * price_value (price_on v days (pred (length days))) c)
+    <= inject_Z (cell_count a c (days_postings ds2)) * (1 # 100000000).
+Proof. exact mark_to_market_balance_prefix. Qed.
+Print Assumptions C03_mark_to_market_balance_prefix.
+
+(* every journal the model builds satisfies the value-zero side condition *)
+Theorem C03_built_days_in_ok : forall l dl dates touch,
+  parse_directives l = MOk dl ->
+  let days := b_days (if touch : bool then builder_touch (builder_of dl) dates else builder_of dl) in
+  Forall (fun p => account_ok (p_acc p) = true) (days_postings days) ->
+  Forall posting_in_ok (days_postings days).
+Proof. exact built_days_in_ok. Qed.
+Print Assumptions C03_built_days_in_ok.
 
 (* the same with a step count read off the input: at most one revaluation per day for a cell *)
 Theorem C03_mark_to_market_input_bound : forall v a c ds s' ds',
